@@ -147,12 +147,12 @@ package lexer
 //@   loop 1 invariant p.cursor == cnt(p, p.rawCursor)
 //@   loop 1 decreases eofIdx(p) - p.rawCursor
 
-//@ func (*PeekingLexer).MakeCheckpoint [C12]
+//@ func (*PeekingLexer).MakeCheckpoint [C12 C11]
 //@   frame-tags C09
 //@   pure
 //@   ensures result == p.Checkpoint
 
-//@ func (*PeekingLexer).LoadCheckpoint [C12]
+//@ func (*PeekingLexer).LoadCheckpoint [C12 C11]
 //@   frame-tags C09
 //@   requires streamOK(p) && ckOK(p, checkpoint)
 //@   modifies p.Checkpoint
